@@ -151,10 +151,15 @@ fn dev_alphabet(d: &Duo) -> Vec<u32> {
 fn run_deep(ctx: &Ctx, lg_k: u8, bound: usize, stride1: usize, stride2: usize, full_every: usize, max_len: usize, obs: &Observer) {
     default_runs_upto(lg_k, max_len).into_par_iter().for_each(|(rname, mut run)| {
         run.truncate(max_len);
-        if run.is_empty() {
+        // The library's pair table degenerates to quadratic time under the row-major order
+        // (sequential keys cluster: 7 s at lg_k 9, 50 s at 10, 7 min at 11, about an hour at 12),
+        // so it is a whole-life run only where it finishes in seconds; the other four orders
+        // cover the larger lg_k.
+        if run.is_empty() || (lg_k > 9 && rname.starts_with("row-major")) {
             return;
         }
         let init = Duo::new(lg_k);
+        let t_run = std::time::Instant::now();
         let edges = Mutex::new(BTreeMap::new());
         let refused = std::sync::atomic::AtomicU64::new(0);
         let stats = engine::deviations(
@@ -209,6 +214,9 @@ fn run_deep(ctx: &Ctx, lg_k: u8, bound: usize, stride1: usize, stride2: usize, f
                 true
             },
         );
+        if std::env::var("VERIF_DEBUG").is_ok() {
+            eprintln!("c05 run_deep lg_k={lg_k} bound={bound} [{rname}]: {} steps in {:.1}s", stats.steps, t_run.elapsed().as_secs_f64());
+        }
         ctx.add_states(stats.steps);
         ctx.add_transitions(stats.steps);
         ctx.count(&format!("E2 lg_k={lg_k} bound={bound} [{rname}] executions"), stats.executions);
@@ -312,6 +320,11 @@ fn run_small(ctx: &Ctx, lg_k: u8, depth: usize, obs: &Observer) {
         ctx.count(&format!("E1 lg_k={lg_k} merged arrivals compared"), stats.merged);
     });
     ctx.edges_merge(&edges.lock().unwrap());
+}
+
+/// timing aid: `mcx c05-time <lg_k>` with VERIF_DEBUG=1
+pub fn time_runs(ctx: &Ctx, lg_k: u8) {
+    run_deep(ctx, lg_k, 0, 1, 1, 8192, usize::MAX, &no_observer);
 }
 
 pub fn explore(ctx: &Ctx, obs: &Observer) {
